@@ -95,8 +95,14 @@ def pct_strategy(est_steps=2000, depth=4, stalls=0):
     )
 
 
-def _with_flips(sched, flips):
-    return dict(sched, flips=flips) if flips else sched
+def _with_flips(sched, flips, expiry_last):
+    if flips:
+        sched = dict(sched, flips=flips)
+    if expiry_last:
+        sched = dict(sched, expiry_last=True)
+        if not flips:
+            sched['flips'] = [1, 1, 1, 1]
+    return sched
 
 
 def sched_strategy(max_len=200, est_steps=2000, depth=4, stalls=0):
@@ -109,7 +115,13 @@ def sched_strategy(max_len=200, est_steps=2000, depth=4, stalls=0):
         pct_strategy(est_steps, depth, stalls),
     )
     # `flips`: bits for the binary decisions that are not thread choices (timed lock wait: expiry vs. same-instant release)
-    return st.builds(_with_flips, base, st.one_of(st.just([]), st.just([]), st.lists(st.sampled_from([0, 1, 1]), min_size=1, max_size=6)))
+    # `expiry_last`: threads whose timed wait expired run after everybody else at that instant (see detsched)
+    return st.builds(
+        _with_flips,
+        base,
+        st.one_of(st.just([]), st.just([]), st.lists(st.sampled_from([0, 1, 1]), min_size=1, max_size=6)),
+        st.sampled_from([False, False, False, True]),
+    )
 
 
 # ------------------------------------------------------------------ running one simulated case
@@ -151,6 +163,7 @@ def run_sim(
         creep=creep,
     )
     sim.flip_bits = tuple(sched.get('flips', ()))
+    sim.expiry_last = bool(sched.get('expiry_last'))
     gc_was = gc.isenabled()
     gc.disable()
     if lines:
@@ -180,6 +193,10 @@ def hang_check(out, *, allow_steps_inconclusive=True):
         return
     if v == 'steps':
         raise Inconclusive('step budget exhausted')
+    if v.endswith('livelock'):
+        sig = out.sim.signature()
+        rep = [f"T{r['idx']}:{r['name']}:{r['what']}@{r['site'][0]}:{r['site'][1]}:{r['site'][2]}" if r['site'] else f"T{r['idx']}:{r['name']}:{r['what']}" for r in out.sim.blocked_report]
+        raise Violation(v.replace(':', '_'), f'virtual t={out.sim.now - out.sim.t0:.3f}s: no thread has waited for anything during the last {out.sim.steps - out.sim.last_idle_step} scheduling steps (spinning); unfinished: {rep}', signature=sig)
     sig = out.sim.signature()
     rep = [
         f"T{r['idx']}:{r['name']}:{r['what']}@{r['site'][0]}:{r['site'][1]}:{r['site'][2]}" if r['site'] else f"T{r['idx']}:{r['name']}:{r['what']}"
